@@ -921,10 +921,12 @@ func (w *World) ExecNested(op *Op) (string, Res) {
 		for vid, name := range w.NameOfVid {
 			vidOfName[name] = vid
 		}
+		recorded := make([][2]int, len(op.Pairs)) // a fresh slice: the history may be executed again (multi-run variants)
 		for i, p := range op.Pairs {
 			idOf[cname(p[0])] = p[1]
-			op.Pairs[i][0] = vidOfName[cname(p[0])] // recorded by value id, which is how the trace specification names containers
+			recorded[i] = [2]int{vidOfName[cname(p[0])], p[1]} // recorded by value id, which is how the trace specification names containers
 		}
+		op.Pairs = recorded
 		var err error
 		r := Res{}
 		visit := func(v atree.Value) error {
